@@ -10,6 +10,8 @@ the following are checked at every site:
         add_hex computes 16*code + digit;
   (iii) conservation: on every path x is consumed exactly once (appended, buffered, or the closing brace) and a
         flush copies pending[0..idx) before x is consumed;
+  (iv)  restart: on a path that flushes, x is then treated exactly as the initial state treats it (a backslash is
+        buffered and opens a new escape attempt, any other character is appended and the state is initial);
   (C17) every element appended to string_so_far is <= MAX_CHAR, every buffered char is ASCII (<= 127).
 """
 from .. import terms as T
@@ -31,6 +33,8 @@ class Result:
         self.paths = 0
         self.appends_checked = 0
         self.buffered_checked = 0
+        self.restarts = []         # (partition, 'bs' | 'other' | None, final (state, idx), how x was consumed) for paths that flush
+        self.init_paths = []       # same tuples for the paths of the initial partition
 
 
 def field_names(cr):
@@ -157,7 +161,25 @@ def fixpoint(ctx, cfg, MAX):
                 res.partitions[k2] = max(hi2, res.partitions.get(k2, 0))
                 if k2 not in work:
                     work.append(k2)
-            check_path(res, ip, o, key, x, code, MAX)
+            how = check_path(res, ip, o, key, x, code, MAX)
+            cls = 'bs' if ip.entails(o.state, eq(x, I(92))) else ('other' if ip.entails(o.state, ne(x, I(92))) else None)
+            if how[0]:
+                res.restarts.append((key, cls, k2, how[1]))
+            if key == init_key:
+                res.init_paths.append((key, cls, k2, how[1]))
+    # (iv) restart: once the buffered characters are flushed, x is treated exactly as in the initial state
+    # (a backslash opens a new escape attempt, anything else is appended)
+    init_bs = {(k2, how) for (_, cls, k2, how) in res.init_paths if cls == 'bs'}
+    init_other = {(k2, how) for (_, cls, k2, how) in res.init_paths if cls == 'other'}
+    if len(init_bs) != 1 or len(init_other) != 1 or any(cls is None for (_, cls, _, _) in res.init_paths) or \
+            list(init_other)[0] != (init_key, 'push') or list(init_bs)[0][1] != 'pending' or list(init_bs)[0][0][1] != 1:
+        res.problems.append(('parser/initial-state-does-not-start-an-escape-on-backslash-and-append-otherwise', {'paths': [str(p_) for p_ in res.init_paths]}))
+    else:
+        for (key, cls, k2, how) in res.restarts:
+            want = list(init_bs)[0] if cls == 'bs' else (list(init_other)[0] if cls == 'other' else None)
+            if want is None or (k2, how) != want:
+                res.problems.append(('parser/after-a-flush-the-character-is-not-treated-as-in-the-initial-state',
+                                     {'partition': key, 'character': {'bs': 'backslash', 'other': 'not a backslash', None: 'undetermined'}[cls], 'reaches': str(k2), 'consumed_by': how, 'initial_state_gives': str(want)}))
     return res
 
 
@@ -209,6 +231,11 @@ def check_path(res, ip, o, key, x, code, MAX):
         elif kind == 'add_hex':
             # value accumulated: 16*code + digit  (checked on the final escape_code when no close followed)
             pass
+    how = None
+    for (kind, sv, iv, cv, arg) in evs:
+        if kind in ('pending', 'push') and arg == x:
+            how = kind
+    ret = (flushed, how)
     if consumed != 1:
         res.problems.append(('parser/char-not-consumed-exactly-once', {'partition': key, 'times': consumed, 'events': [e[0] for e in evs], 'leaf_constraints': pc_text(o)}))
     # add_hex arithmetic
@@ -225,6 +252,7 @@ def check_path(res, ip, o, key, x, code, MAX):
                     AND(between(I(97), x, I(102)), eq(cv, T.mk_add(base, T.mk_sub(x, I(87))))))
         if not ip.entails(o.state, goal):
             res.problems.append(('parser/add_hex-does-not-accumulate-16c+digit', {'partition': key, 'code': T.show(cv)}))
+    return ret
 
 
 _CACHE = {}
